@@ -251,6 +251,7 @@ def primitiveRootSearch (p : Nat) (exps : List Nat) : Nat → Nat → Option Nat
 
 def primitiveRoot (p : Nat) : Option Nat :=
   if p < 2 then none else
+  if p = 2 then some 1 else      -- the `if prime == 2 { return Some(1) }` of the repaired code (fix e613fc1)
   let exps := (distinctPrimeFactors (p - 1)).map (fun q => (p - 1) / q)
   primitiveRootSearch p exps p 2
 
